@@ -50,9 +50,19 @@ def _wide_cols(g):
 # ------------------------------------------------------------------------------------------------
 # C08
 # ------------------------------------------------------------------------------------------------
+_add_count = [0]
+
+
 @op("add", "C08", ["C", "A", "B"])
 def b_add(g, W, sz):
     nr, nc = g.dim(sz), g.dim(max(sz, 64 * g.rng.randint(1, 10)))
+    if g.rng.random() < 0.5:
+        # _mzd_add has one unrolled loop per row width 1..8 words and a generic one beyond: walk through every width,
+        # mostly with a partial last word (independent of sz)
+        _add_count[0] += 1
+        w = 1 + _add_count[0] % 10
+        nc = 64 * (w - 1) + (g.rng.randint(1, 63) if g.rng.random() < 0.8 else 64)
+        nr = g.rng.choice([1, 2, 3, 5, 8])
     ra, ka = g.rows(nr, nc)
     rb, kb = g.rows(nr, nc)
     la, da = g.operand("A", nr, nc, ra, W("A"))
